@@ -134,7 +134,8 @@ def run_case(case, part):
             argv += ['--retry-connrefused']
         if 'refused' in case['families']:
             argv += ['--span-hosts']
-        res = crawl.run_app(argv, {'a.test': addrs[0], 'b.test': addrs[1], 'c.test': addrs[2]})
+        res = crawl.run_app(argv, {'a.test': addrs[0], 'b.test': addrs[1], 'c.test': addrs[2]},
+                            stall_watch=(lambda: len(srv.log.snapshot()) + (watch['n'] if watch else 0), 40))
         rows = crawl.read_table(db) if os.path.exists(db) else []
         log = srv.log.snapshot()
     finally:
@@ -145,6 +146,13 @@ def run_case(case, part):
         shutil.rmtree(tmp, ignore_errors=True)
     part.evaluations += 1
     replay = case
+    if res.get('stalled'):
+        # no request and no connection attempt for 40 s: the witness is the pool state (waiters on hosts whose slots are all
+        # checked out by clients that finished long ago)
+        leaked = [k for k, st in (res.get('pool_state') or {}).items() if isinstance(st, dict) and st['busy'] >= st['max']]
+        part.violation('crawl-stalled-for-ever/' + ('all-connection-slots-of-a-host-leaked' if leaked else 'other'),
+                       {'pool_state': res.get('pool_state'), 'requests': len(log), 'tries': case['tries']}, replay)
+        return
     if res['crashed']:
         part.violation('crawl-crashed', {'exception': res['exception'], 'log': res['log'][-600:]}, replay)
         return
@@ -234,7 +242,8 @@ def main():
     else:
         rng = random.Random(check.seed)
         cases = []
-        combos = [(m, t) for m in (0, 1, 2, 5, 20) for t in (1, 2, 3, 5)]
+        # (tries above the per-host connection limit of 6: a visit that leaks its connection when it fails starves the host)
+        combos = [(m, t) for m in (0, 1, 2, 5, 20) for t in (1, 2, 3, 5, 9)]
         n = int((800 if check.thorough else 192) * check.scale)
         for i in range(n):
             m, t = combos[i % len(combos)] if i < len(combos) or check.thorough else rng.choice(combos)
